@@ -362,6 +362,11 @@ def render_class(c, out):
     for (fname, t, init, fin) in c.get("fields", []):
         out.append(IND + "def %s%s: %s := %s" % ("fin " if fin else "", fname, ty_str(t), rx(init, True)))
         n += 1
+    if c.get("init"):
+        ini = c["init"]
+        ps = ["self"] + ["%s: %s" % (pn, ty_str(pt)) for (pn, pt, _d) in ini["params"]]
+        out.append(IND + "def __init__(%s) =>" % ", ".join(ps))
+        render_block(ini["body"], 2, out)
     for m in c.get("methods", []):
         render_fun(m, 1, out, is_method=True)
         n += 1
@@ -626,6 +631,15 @@ class Interp:
         for (n, t, is_field), v in zip(c["args"], args):
             if is_field:
                 o.fields[n] = v
+        if c.get("init"):
+            env = Env(None)
+            env.define("self", o)
+            for (pn, _pt, _d), v in zip(c["init"]["params"], args):
+                env.define(pn, v)
+            try:
+                self.exec_block(c["init"]["body"], env)
+            except _Return:
+                pass
 
     def call_fun(self, f, args, recv):
         env = Env(None)
